@@ -99,6 +99,26 @@ KERNELS = [
          body_contains='__builtin_bswap32',
          tparams=[], params=[('bswap32_v', '.u32')], ret='.u16',
          aliases=[(r'__builtin_bswap32\(v\)', 'bswap32_v')]),
+    # positions of the members of a level (the arithmetic behind Rt/Walk.lean): free functions of sbepp::detail
+    dict(name='first_dynamic_pos', cls=None,
+         sig=r'Group\s+get_first_dynamic_field_view\(\s*const\s+View\s+view\s*\)\s*noexcept\s*\{',
+         tparams=['BT'], params=[('level', '.ptr'), ('block_length', 'BT')], ret='.ptr',
+         rewrite=[(r'return\s*\{(.*),\s*view\(end_ptr_tag\{\}\)\s*\}', r'return \1')],
+         aliases=[(r'view\(get_level_tag\{\}\)', 'level'), (r'view\(get_block_length_tag\{\}\)', 'block_length')]),
+    dict(name='next_dynamic_pos', cls=None,
+         sig=r'Group\s+get_dynamic_field_view\(\s*const\s+View\s+view\s*,\s*const\s+Prev\s+prev\s*\)\s*noexcept\s*\{',
+         tparams=[], params=[('prev_addr', '.ptr'), ('prev_size', '.u64')], ret='.ptr',
+         rewrite=[(r'return\s*\{(.*),\s*view\(end_ptr_tag\{\}\)\s*\}', r'return \1')],
+         aliases=[(r'prev\(addressof_tag\{\}\)', 'prev_addr'), (r'prev\(size_bytes_tag\{\}\)', 'prev_size')]),
+    dict(name='message_level_pos', cls='message_base',
+         sig=r'Byte\*\s+operator\(\)\(\s*get_level_tag\s*\)\s*const\s+noexcept\s*\{',
+         tparams=[], params=[('header_addr', '.ptr'), ('header_size', '.u64')], ret='.ptr',
+         skip=[r'^autoheader='],
+         aliases=[(r'header\(addressof_tag\{\}\)', 'header_addr'), (r'header\(size_bytes_tag\{\}\)', 'header_size')]),
+    dict(name='message_cursor_size', cls='message_base',
+         sig=r'operator\(\)\(\s*size_bytes_tag\s*,\s*cursor<Byte2>&\s+c\s*\)\s*const\s+noexcept\s*\{',
+         tparams=[], params=[('cursor_ptr', '.ptr'), ('addr', '.ptr')], ret='.u64',
+         aliases=[(r'c\.pointer\(\)', 'cursor_ptr'), (r'\(\*this\)\(addressof_tag\{\}\)', 'addr')]),
 ]
 
 
